@@ -182,15 +182,39 @@ pub proof fn lemma_sra_eval(lhs: Expression, rhs: Expression, zero: Constant, on
         eval_spec(sra_form(lhs, rhs, zero, ones), env) == eval_spec(Expression::AShr(Box::new(lhs), Box::new(rhs)), env),
 {
     let w = expr_bits(lhs);
-    reveal_with_fuel(expr_wf, 5);
-    reveal_with_fuel(expr_bits, 5);
-    reveal_with_fuel(eval_spec, 5);
+    // name the sub-terms so that each spec function is unfolded one level at a time
+    let cz = Expression::Constant(zero);
+    let co = Expression::Constant(ones);
+    let cond = Expression::Cmplts(Box::new(lhs), Box::new(cz));
+    let x1 = Expression::Xor(Box::new(lhs), Box::new(co));
+    let sh = Expression::Shr(Box::new(x1), Box::new(rhs));
+    let x2 = Expression::Xor(Box::new(sh), Box::new(co));
+    let els = Expression::Shr(Box::new(lhs), Box::new(rhs));
+    let whole = Expression::Ite(Box::new(cond), Box::new(x2), Box::new(els));
+    assert(whole == sra_form(lhs, rhs, zero, ones));
+    assert(expr_wf(cz) && expr_bits(cz) == w);
+    assert(expr_wf(co) && expr_bits(co) == w);
+    assert(expr_wf(cond) && expr_bits(cond) == 1);
+    assert(expr_wf(x1) && expr_bits(x1) == w);
+    assert(expr_wf(sh) && expr_bits(sh) == w);
+    assert(expr_wf(x2) && expr_bits(x2) == w);
+    assert(expr_wf(els) && expr_bits(els) == w);
+    assert(expr_wf(whole) && expr_bits(whole) == w);
     lemma_eval_wf_val(lhs, env);
     lemma_eval_wf_val(rhs, env);
-    reveal(bv_cmplts);
     let el = eval_spec(lhs, env);
     let er = eval_spec(rhs, env);
+    let target = eval_spec(Expression::AShr(Box::new(lhs), Box::new(rhs)), env);
+    assert(target == bin_spec(BinOp::AShr, el, er));
+    assert(eval_spec(cz, env) == EvalR::Val(w, 0));
+    assert(eval_spec(co, env) == EvalR::Val(w, (pow2(w) - 1) as nat));
+    assert(eval_spec(cond, env) == bin_spec(BinOp::Cmplts, el, EvalR::Val(w, 0)));
+    assert(eval_spec(x1, env) == bin_spec(BinOp::Xor, el, EvalR::Val(w, (pow2(w) - 1) as nat)));
+    assert(eval_spec(sh, env) == bin_spec(BinOp::Shr, eval_spec(x1, env), er));
+    assert(eval_spec(x2, env) == bin_spec(BinOp::Xor, eval_spec(sh, env), EvalR::Val(w, (pow2(w) - 1) as nat)));
+    assert(eval_spec(els, env) == bin_spec(BinOp::Shr, el, er));
     if let EvalR::Val(wl, a) = el {
+        reveal(bv_cmplts);
         lemma_pow2_pos((w - 1) as nat);
         assert(sval(w, 0) == 0);
         if sval(w, a) < 0 {
